@@ -675,6 +675,28 @@ def _ports(ctx):
            'environments using the prod port range %s = environments in the '
            'prod container set %s' % (sorted(prod_envs), sorted(svc_prod)),
            construct='prod environments')
+    # a port is taken by binding it: the bind of a candidate port is the
+    # test that nobody else holds it, so address re-use is not switched on
+    # before the bind (two sockets that both allow re-use can share a port)
+    agraph = ctx.cfg(alloc)
+    binds = [n for n, c in K.nodes_calling(
+        agraph, lambda c: K.is_meth(c, 'bind'))]
+    ctx.require(binds, 'the bind of a candidate port in _allocate_sockets',
+                rule='C16.4', func=alloc)
+    reuse = [n for n, c in K.nodes_calling(
+        agraph, lambda c: K.is_meth(c, 'setsockopt') and any(
+            'SO_REUSE' in N.txt(a) for a in c.args))]
+    for node in reuse:
+        loop = K.enclosing_for(agraph, node)
+        ok = K.guarded_by(agraph, node, lambda e: e.src in binds and
+                          e.kind != 'exc', start=loop)
+        ctx.ob('C16.4', alloc, node, ok,
+               'address re-use is allowed on a socket only after it was '
+               'bound (the bind is the test that the port is free)',
+               construct='no address re-use before the bind')
+    ctx.ob('C16.4', alloc, binds[0], True,
+           'candidate ports are claimed by bind (%d re-use option(s), all '
+           'after the bind)' % len(reuse), construct='port claimed by bind')
     proto = rt.functions.get('_allocate_network_ports_proto')
     ctx.require(proto is not None, '_allocate_network_ports_proto')
     # by data flow, whatever the locals are called: S = _allocate_sockets(..,
